@@ -29,13 +29,19 @@ class A(Adapter):
 
     def configs(self):
         return [cfg("n50b12", True, n=50, b=12.5, rew="dense"), cfg("n5b1sparse", True, n=5, b=1.0, rew="sparse"),
-                cfg("n10b2", n=10, b=2.0, rew="dense"), cfg("n20b40sparse", n=20, b=40.0, rew="sparse")]
+                cfg("n10b2", n=10, b=2.0, rew="dense"), cfg("n20b40sparse", n=20, b=40.0, rew="sparse"),
+                # user-written generator with weights in eighths: items that fill the remaining budget exactly
+                cfg("n8b2eighths", True, n=8, b=2.0, rew="dense", gen="eighths"),
+                cfg("n6b1eighths_sparse", n=6, b=1.0, rew="sparse", gen="eighths")]
 
     def build(self, c):
         from jumanji.environments import Knapsack
         from jumanji.environments.packing.knapsack import generator as G
         from jumanji.environments.packing.knapsack import reward as R
         rf = R.DenseReward() if c["rew"] == "dense" else R.SparseReward()
+        if c.get("gen") == "eighths":
+            from jsim import fakes
+            return Knapsack(generator=fakes.knapsack_eighths_generator(c["n"], c["b"]), reward_fn=rf)
         return Knapsack(generator=G.RandomGenerator(num_items=c["n"], total_budget=c["b"]), reward_fn=rf)
 
     def horizon(self, env, c):
